@@ -1,2 +1,175 @@
--- stub: replaced when the area is built
-def main : IO Unit := pure ()
+import Nstd.Common.Basic
+import Nstd.Variant.Model
+import Nstd.Variant.Ieee
+/-
+  Line protocol of the Variant area (6 variables).
+
+    new v <val>            destroy + typed constructor           <val> = <lit> | list <src>* | arr <src>* | map (<khex> <src>)*
+    copy v w               destroy + copy constructor (v ≠ w)
+    mut v <path> <leaf>    walk from variable v through mutable accessors, then
+        assign <src> | set <val> | clear | touch 7|8|9|10 | lapp <src> | lpre <src> | lrem i
+        | aapp <src> | arem i | mput <khex> <src> | mrem <khex> | sapp <hex>
+    get v w <path>         var[v] = <const walk in var[w]>
+    swap v w
+    <path> = `.` | steps joined by `/`:  l<i> (list item)  a<i> (array item)  m<khex> (map value)
+    <src>  = v<k> | <lit>
+    <lit>  = n | b0 | b1 | d<16 hex digits> | i<int> | u<nat> | l<int> | q<nat> | s<hex>
+
+  Observation after every op, for every variable:
+     `<type> <toBool> <toInt> <toUInt> <toInt64> <toUInt64> <toDouble is zero: z|n> <toString hex> <value>`
+  joined by ` | `, then ` # ` and the 6×6 matrix of `==` (row-major, `0`/`1`/`?`).
+  `?` = the real code evaluates a double→integer cast that C leaves undefined.
+-/
+open Nstd.Common
+namespace Nstd.Variant
+
+def hexNat (s : String) : Option Nat :=
+  s.toList.foldl (fun acc c => do
+    let a ← acc
+    let x ← hexVal c
+    pure (a * 16 + x)) (some 0)
+
+def parseInt (s : String) : Option Int :=
+  if s.startsWith "-" then (s.drop 1).toNat?.map (fun n => -(n : Int)) else s.toNat?.map (fun n => (n : Int))
+
+def parseLit (t : String) : Option Val :=
+  let body := (t.drop 1).toString
+  match t.toList.head? with
+  | some 'n' => if body == "" then some .null else none
+  | some 'b' => if body == "0" then some (.bool false) else if body == "1" then some (.bool true) else none
+  | some 'd' => if body.length == 16 then (hexNat body).map .dbl else none
+  | some 'i' => (parseInt body).bind (fun i => if -(2 ^ 31 : Int) ≤ i ∧ i < 2 ^ 31 then some (.int i) else none)
+  | some 'u' => (parseInt body).bind (fun i => if 0 ≤ i ∧ i < 2 ^ 32 then some (.uint i) else none)
+  | some 'l' => (parseInt body).bind (fun i => if -(2 ^ 63 : Int) ≤ i ∧ i < 2 ^ 63 then some (.int64 i) else none)
+  | some 'q' => (parseInt body).bind (fun i => if 0 ≤ i ∧ i < 2 ^ 64 then some (.uint64 i) else none)
+  | some 's' => (fromHex body).map .str
+  | _ => none
+
+def parseSrc (t : String) : Option Src :=
+  if t.startsWith "v" then ((t.drop 1).toString.toNat?).map .var else (parseLit t).map .lit
+
+def parseSrcs : List String → Option (List Src)
+  | [] => some []
+  | t :: r => do
+    let a ← parseSrc t
+    let b ← parseSrcs r
+    pure (a :: b)
+
+def parsePairs : List String → Option (List (Str × Src))
+  | [] => some []
+  | [_] => none
+  | k :: t :: r => do
+    let kk ← fromHex k
+    let a ← parseSrc t
+    let b ← parsePairs r
+    pure ((kk, a) :: b)
+
+def parseValS : List String → Option ValS
+  | "list" :: r => (parseSrcs r).map .list
+  | "arr" :: r => (parseSrcs r).map .array
+  | "map" :: r => (parsePairs r).map .map
+  | [t] => (parseLit t).map .lit
+  | _ => none
+
+def parseStep (t : String) : Option Step :=
+  let body := (t.drop 1).toString
+  match t.toList.head? with
+  | some 'l' => body.toNat?.map .li
+  | some 'a' => body.toNat?.map .ar
+  | some 'm' => (fromHex body).map .mk
+  | _ => none
+
+def parseSteps : List String → Option (List Step)
+  | [] => some []
+  | t :: r => do
+    let a ← parseStep t
+    let b ← parseSteps r
+    pure (a :: b)
+
+def parsePath (t : String) : Option (List Step) :=
+  if t == "." then some [] else parseSteps (t.splitOn "/")
+
+def parseLeaf : List String → Option LeafS
+  | ["assign", s] => (parseSrc s).map .assign
+  | "set" :: r => (parseValS r).map .set
+  | ["clear"] => some .clear
+  | ["touch", k] => k.toNat?.map .touch
+  | ["lapp", s] => (parseSrc s).map .lapp
+  | ["lpre", s] => (parseSrc s).map .lpre
+  | ["lrem", i] => i.toNat?.map .lrem
+  | ["aapp", s] => (parseSrc s).map .aapp
+  | ["arem", i] => i.toNat?.map .arem
+  | ["mput", k, s] => do pure (.mput (← fromHex k) (← parseSrc s))
+  | ["mrem", k] => (fromHex k).map .mrem
+  | ["sapp", t] => (fromHex t).map .sapp
+  | _ => none
+
+def parseOp : List String → Option Op
+  | "new" :: v :: r => do pure (.new (← v.toNat?) (← parseValS r))
+  | ["copy", v, w] => do pure (.copy (← v.toNat?) (← w.toNat?))
+  | "mut" :: v :: p :: r => do pure (.mut (← v.toNat?) (← parsePath p) (← parseLeaf r))
+  | ["get", v, w, p] => do pure (.get (← v.toNat?) (← w.toNat?) (← parsePath p))
+  | ["swap", v, w] => do pure (.swap (← v.toNat?) (← w.toNat?))
+  | _ => none
+
+/-! ### rendering -/
+
+def hex16 (d : Nat) : String :=
+  String.join ((List.range 8).map (fun i => byteHex (d / 256 ^ (7 - i) % 256)))
+
+mutual
+def render : Val → String
+  | .null => "n"
+  | .bool b => if b then "b1" else "b0"
+  | .dbl d => "d" ++ hex16 d
+  | .int i => s!"i{i}"
+  | .uint i => s!"u{i}"
+  | .int64 i => s!"l{i}"
+  | .uint64 i => s!"q{i}"
+  | .str s => "s" ++ toHex s
+  | .list l => "L[" ++ renderList l ++ "]"
+  | .array l => "A[" ++ renderList l ++ "]"
+  | .map m => "M{" ++ renderMap m ++ "}"
+def renderList : List Val → String
+  | [] => ""
+  | [a] => render a
+  | a :: t => render a ++ "," ++ renderList t
+def renderMap : List (Str × Val) → String
+  | [] => ""
+  | [(k, a)] => toHex k ++ ":" ++ render a
+  | (k, a) :: t => toHex k ++ ":" ++ render a ++ "," ++ renderMap t
+end
+
+def optInt : Option Int → String
+  | some i => s!"{i}"
+  | none => "?"
+
+def obsVar (x : Val) : String :=
+  s!"{x.type} {if x.toBool ieee then 1 else 0} {optInt (x.toInt ieee)} {optInt (x.toUInt ieee)} " ++
+  s!"{optInt (x.toInt64 ieee)} {optInt (x.toUInt64 ieee)} {if ieee.isZero (x.toDouble ieee) then "z" else "n"} " ++
+  s!"{toHex (x.toStr ieee)} {render x}"
+
+def eqChar : Option Bool → String
+  | some true => "1"
+  | some false => "0"
+  | none => "?"
+
+def obs (s : State) : String :=
+  let vals := (List.range nvars).map s.read
+  " | ".intercalate (vals.map obsVar) ++ " # " ++
+    String.join (vals.map (fun a => String.join (vals.map (fun b => eqChar (veq ieee a b)))))
+
+def stepLine (s : State) (ws : List String) : State × String :=
+  match ws with
+  | ["reset"] => (init, obs init)
+  | _ =>
+    match parseOp ws with
+    | none => (s, "bad-op")
+    | some op =>
+      match step ieee s op with
+      | some s' => (s', obs s')
+      | none => (s, "bad-op")
+
+end Nstd.Variant
+
+def main : IO Unit := Nstd.Common.ioLoop Nstd.Variant.init Nstd.Variant.stepLine
